@@ -33,7 +33,7 @@ SEEDS: dict[str, dict[str, str]] = {
     "C23": {"C23-1": "R-C23.1", "C23-2": "R-C23.1", "C23-3": "R-C23.1"},
     "C24": {"C24-1": "R-C24.2", "C24-2": "R-C24.6", "C24-3": "R-C24.2", "C24-4": "R-C24.7"},
     "C28": {"C28-2": "R-C28.1", "C28-3": "R-C28.1"},
-    "C29": {"C29-1": "R-C29.3", "C29-2": "R-C29.4", "C29-3": "R-C29.5"},
+    "C29": {"C29-1": "R-C29.3", "C29-2": "R-C29.4", "C29-3": "R-C29."},
     "C30": {"C30-1": "R-C30.3", "C30-2": "R-C30.1"},
     "C32": {"C32-1": "R-C32.3", "C32-2": "R-C32.4", "C32-3": "R-C32.3"},
     "C33": {"C33-1": "R-C33.3", "C33-2": "R-C33.2", "C33-3": "R-C33.3"},
